@@ -377,8 +377,8 @@ def _shard(k):
 
 
 def _unreadable_shard(_):
-    """Files the library cannot (or need not) read: whatever it answers - refusal or data - no access form may
-    change their bytes or leave a descriptor open.  Access forms: explicit context (plain, write-enabled), every
+    """Well-formed files the library cannot read completely: whatever it answers - refusal or data - no access form
+    may change their bytes or leave a descriptor open.  Access forms: explicit context (plain, write-enabled), every
     implicit reader with no context, twice in a row, and a reader after a refused explicit context."""
     acc = core.Acc()
     n = specs.lib()
@@ -386,14 +386,14 @@ def _unreadable_shard(_):
     good = R.build_file(3, [kdriver.known_record(R.T_EVENTS, 0), kdriver.opaque_record(1)])
     unknown_kind = bytearray(good)
     unknown_kind[R.HEADER + R.ENTRY: R.HEADER + R.ENTRY + 4] = (17).to_bytes(4, "little")     # a block kind beyond the enum
+    future_format = bytearray(good)
+    future_format[R.HEADER + 4: R.HEADER + 8] = (77).to_bytes(4, "little")                     # a format code of the events block the library does not know
+    # structurally sound files (signature, version, table, ranges all fine - the property's "well-formed") that the
+    # library nevertheless cannot read completely
     files = {
-        "not-a-tdf": b"this is not a TDF file, but it is somebody's data\n" * 3,
-        "empty": b"",
-        "signature-only": good[:16],
-        "cut-inside-table": good[:R.HEADER + R.ENTRY + 40],
-        "cut-inside-header": good[:40],
-        "unknown-block-kind": bytes(unknown_kind),
-        "slot-count-negative": good[:20] + (-3).to_bytes(4, "little", signed=True) + good[24:],
+        "opaque-block": good,                               # a block of a kind the library cannot decode: `blocks` raises inside its implicit context
+        "unknown-block-kind": bytes(unknown_kind),          # a kind beyond the library's enumeration: opening is refused
+        "unknown-block-format": bytes(future_format),       # decoding that block is refused
     }
     readers = ("blocks", "has_events", "events", "len", "repr", "getitem_0", "nBytes", "eq_self", "entries_attr")
 
